@@ -3,6 +3,7 @@
 package main
 
 import (
+	"encoding/json"
 	"flag"
 	"fmt"
 	"os"
@@ -119,6 +120,15 @@ func selfTest(id, repo, verif string, res *report.Result, findings []report.Find
 	for _, d := range dirs {
 		name := filepath.Base(d)
 		target := name[:3]
+		// a seed whose defect changed character when /repo was repaired names the property it breaks now
+		if js, err := os.ReadFile(filepath.Join(d, "meta.json")); err == nil {
+			var meta struct {
+				Retargeted string `json:"retargeted"`
+			}
+			if json.Unmarshal(js, &meta) == nil && meta.Retargeted != "" {
+				target = meta.Retargeted
+			}
+		}
 		if target != id {
 			continue
 		}
